@@ -22,12 +22,11 @@ SwapApplies(ents, opts) ==
 DirOpen(msg) == \E i \in DOMAIN msg.ents :
                     /\ msg.ents[i].k \in {"tu", "vp"} /\ IsSome(msg.ents[i].trip) /\ HasNyct(Val(msg.ents[i].trip))
                     /\ OrElse(Val(Val(msg.ents[i].trip).nyct).dir, 0) \notin {1, 3}
-(* an assigned trip WITHOUT a train id on an entity that carries a vehicle descriptor of its own: C16 names the    *)
-(* vehicle of an assigned trip by its train id, so here the property leaves the vehicle's id open (the feed's own *)
-(* descriptor may be kept or replaced by an anonymous one)                                                        *)
-TrainOpen(msg) == \E i \in DOMAIN msg.ents :
-                    /\ msg.ents[i].k \in {"tu", "vp"} /\ IsSome(msg.ents[i].trip) /\ Assigned(Val(msg.ents[i].trip))
-                    /\ OrElse(Val(Val(msg.ents[i].trip).nyct).train, 0) = 0 /\ IsSome(msg.ents[i].veh)
+(* an assigned trip WITHOUT a train id on an entity that carries a vehicle descriptor of its own: C16 names the   *)
+(* vehicle of an assigned trip by its train id, so here the property leaves the vehicle open between two readings *)
+(* (an anonymous vehicle, or the feed's own descriptor kept: NyctTrips!PreAlt); the vehicle and link clauses must  *)
+(* hold under one of them, the trip clauses hold under both                                                       *)
+TrainOpen(msg) == \E i \in DOMAIN msg.ents : TrainOpenEnt(msg.ents[i])
 MsgStep(e) ==
     LET c == e.case msg == e.msg opts == e.opts r == e.res
         ents2 == Pre(msg, opts).ents
@@ -38,19 +37,21 @@ MsgStep(e) ==
         (* clauses that hold under every reading apply                                                              *)
         fused == "fuse" \in DOMAIN msg
         trainOpen == TrainOpen(msg)
-        cf == ConflictFree(ents2) /\ ~dirOpen /\ ~fused /\ ~trainOpen
+        ents2alt == PreAlt(msg, opts).ents
+        cf == ConflictFree(ents2) /\ ~dirOpen /\ ~fused /\ (trainOpen => ConflictFree(ents2alt))
+        Either(P(_)) == P(ents2) \/ (trainOpen /\ P(ents2alt))
         ok == e.err = ""
     IN
     /\ Check("C16.parses", c, l, ok /\ e.plainErr = "")
     /\ Check("C16.trips-derived-fields-and-stale-filter", c, l, (ok /\ cf) => C02_Trips(ents2, r))
-    /\ Check("C16.vehicles", c, l, (ok /\ cf) => (C02_IdVehicles(ents2, r) /\ C02_IdlessVehicles(ents2, r)))
-    /\ Check("C16.assigned-trip-linked-to-train", c, l, (ok /\ cf) => C04_Links(ents2, r))
+    /\ Check("C16.vehicles", c, l, (ok /\ cf) => Either(LAMBDA en : C02_IdVehicles(en, r) /\ C02_IdlessVehicles(en, r)))
+    /\ Check("C16.assigned-trip-linked-to-train", c, l, (ok /\ cf) => Either(LAMBDA en : C04_Links(en, r)))
     /\ Check("C16.every-assigned-trip-has-its-train", c, l, (ok /\ ~dirOpen) => C16_AssignedTripsHaveTheirTrain(msg, opts, r))
     /\ Check("C16.alerts-and-header-untouched", c, l, (ok /\ cf) => (C02_Alerts(ents2, r) /\ C02_Header(msg, r)))
     /\ Check("C16.unique-sorted", c, l, ok => (C07_UniqueTrips(r) /\ C07_TripsSorted(r)))
     (* the same clauses under the names of the general properties they instantiate for a parse with an extension *)
-    /\ Check("C04.links-with-nyct-extension", c, l, (ok /\ cf) => C04_Links(ents2, r))
-    /\ Check("C04.links-mutual-with-nyct-extension", c, l, (ok /\ ConflictFree(ents2) /\ ~dirOpen /\ ~trainOpen) => C04_LinksMutual(r))
+    /\ Check("C04.links-with-nyct-extension", c, l, (ok /\ cf) => Either(LAMBDA en : C04_Links(en, r)))
+    /\ Check("C04.links-mutual-with-nyct-extension", c, l, (ok /\ ConflictFree(ents2) /\ ~dirOpen /\ (trainOpen => ConflictFree(ents2alt))) => C04_LinksMutual(r))
     /\ Check("C07.unique-sorted-with-nyct-extension", c, l, ok => (C07_UniqueTrips(r) /\ C07_TripsSorted(r) /\ C07_UniqueVehicleIds(r)))
     /\ Check("C07.order-independent-with-nyct-extension", c, l,
              cf => \A k \in DOMAIN e.perms : e.perms[k].err = "" => C07_SameTripsVehiclesLinks(e.perms[k].res, r))
